@@ -19,14 +19,14 @@ RULE = (
     "(distinct texts, hashed)."
 )
 BOUND = {
-    "quick": "nasty^<=4 bare, ^<=3 in 8 carriers; E-TOK xsh n<=3, expr n<=3; corpus char edits; parse_file for nasty^<=2",
-    "thorough": "nasty^<=5 bare, ^<=4 in 8 carriers; E-TOK xsh n<=4, all python vocabularies n<=4; corpus char edits",
+    "quick": "nasty^<=4 bare, ^<=3 in 12 carriers (closed and left open); E-TOK xsh, lit, expr n<=3; corpus char edits; parse_file for nasty^<=2",
+    "thorough": "nasty^<=5 bare, ^<=4 in 12 carriers (closed and left open); E-TOK xsh, lit n<=4, all python vocabularies n<=4; corpus char edits",
 }
 ASSUMPTIONS = [
     "per-case deadline 6 s enforced by the parent process, re-run alone with 30 s before a hang is reported",
     "RecursionError is counted as 'other exception' (a violation) only if raised by inputs inside the bounds",
 ]
-CARR = ["f2", "f1", "f3", "sub", "subsq", "macro", "withm", "call"]
+CARR = ["f2", "f1", "f3", "sub", "subsq", "macro", "withm", "call", "macro_open", "sub_open", "f2_open", "fb_open"]
 
 
 def units(tier: str) -> list[tuple]:
@@ -38,6 +38,7 @@ def units(tier: str) -> list[tuple]:
     for c in CARR:
         us += charspace.units("nasty", c, n - 1)
     us += tokspace.units("xsh", 3 if tier == "quick" else 4)
+    us += tokspace.units("lit", 3 if tier == "quick" else 4)
     if tier == "quick":
         us += tokspace.units("expr", 3)
     else:
